@@ -260,9 +260,12 @@ Uncaught(m, c, frames) ==
 Trig(m, t) == [m EXCEPT !.trig = m.trig \cup {t}]
 
 (* some try statement of the active fiber is running its finally block with a completion pending *)
+(* ... in ANY fiber: the as-built flag is one per interpreter, so a fiber that gave control away from inside such a finally block leaves
+   the flag set for whoever runs next, and a catch / a completed try statement of another fiber changes it under the suspended one *)
 PendingSomewhere(m) ==
-    LET fs == CurFiber(m).frames IN
-    \E j \in 1..Len(fs) : \E q \in 1..Len(fs[j].ctl) : fs[j].ctl[q].ph = "finally" /\ fs[j].ctl[q].pend.c # "normal"
+    \E f \in 1..Len(m.fibers) :
+        LET fs == m.fibers[f].frames IN
+        \E j \in 1..Len(fs) : \E q \in 1..Len(fs[j].ctl) : fs[j].ctl[q].ph = "finally" /\ fs[j].ctl[q].pend.c # "normal"
 TrigIf(m, cond, t) == IF cond THEN Trig(m, t) ELSE m
 
 (* Deliver completion c in the active fiber, starting at frame index fi, walking ctl outwards.
@@ -307,8 +310,7 @@ Deliver(m, c, fi, orig) ==
       [] e.c = "try" /\ e.ph = "body" /\ c.c = "throw" /\ CatchOf(p, e.at) # 0 ->
               \* innermost active handler: enter the catch block with the thrown value bound
               LET ct == CatchOf(p, e.at)
-                  pending == \E j \in 1..Len(fib.frames) : \E q \in 1..Len(fib.frames[j].ctl) :
-                                 fib.frames[j].ctl[q].ph = "finally" /\ fib.frames[j].ctl[q].pend.c # "normal"
+                  pending == PendingSomewhere(m)
                   m1 == Alloc(IF pending THEN Trig(m, "CatchWhileCompletionPendingInFinally") ELSE m, Cell(c.v))
                   f2 == [fr EXCEPT !.ctl = Append(rest, [e EXCEPT !.ph = "catch"]),
                                    !.env = Append(SubSeq(fr.env, 1, e.envLen), <<p[ct].d, NewAddr(m)>>),
